@@ -7,7 +7,7 @@
    well as what molli writes; C10_written_* instantiate them with the xyz writer model (Gen tables, tie T).
    The correspondence shards (tie H) evaluate exactly these definitions against the implementation. *)
 From Coq Require Import List Bool ZArith NArith String Lia.
-From Molli Require Import Common.ParseStr Common.ParseStrFacts Model.Parse Model.XyzText Proofs.Parse Proofs.XyzText.
+From Molli Require Import Common.ParseStr Common.ParseStrFacts Model.Parse Model.XyzText Proofs.Parse Proofs.XyzText Proofs.ParseRecords.
 From Molli Require Import Gen.XyzElements.
 Import ListNotations.
 Local Open Scope list_scope.
@@ -214,4 +214,98 @@ Proof.
     - repeat (constructor; [do 2 eexists; repeat split; vm_compute; reflexivity|]). constructor. }
   destruct H as [b Hb]. exists [b; b]. split; [|reflexivity].
   rewrite <- (app_nil_r (ex_mol2 ++ ex_mol2)), <- app_assoc. repeat constructor; assumption.
+Qed.
+
+(* ---------------------------------------------------------------- a record damaged in place (mol2) *)
+(* The count check cannot see a record that was cut mid-line or lost a token (the NUMBER of records is unchanged); what
+   rejects it is the column count of the record parser.  The hypotheses are the components of m2wf (a well-formed text
+   pre0 of blocks bs0 followed by one more molecule: blank/comment lines, the MOLECULE record, five header lines, the
+   ATOM section); the damaged line l' is ARBITRARY, so each prefix of the original record and the record with any token
+   dropped are covered, and so is anything that follows the line (post). *)
+Theorem C10_short_atom_record_mol2 : forall bs0 pre0 ign lm name counts mtype ctype status la als h atoms,
+  m2wf_text bs0 pre0 -> Forall ignorable ign -> is_sec lm SMolecule ->
+  m2header (strip name) (strip counts) (strip ctype) = Ok h -> plain_status status -> is_sec la SAtom ->
+  mh_natoms h = Z.of_nat (List.length atoms) -> Forall2 atom_line_of als atoms ->
+  forall j l' post, (j < List.length als)%nat -> few_tokens 5 l' ->
+  exists e, read_mol2 true (pre0 ++ ign ++ lm :: name :: counts :: mtype :: ctype :: status ::
+                            la :: firstn j als ++ l' :: post) = Err e.
+Proof. exact read_mol2_short_atom. Qed.
+Print Assumptions C10_short_atom_record_mol2.
+(* bls0: the bond records in front of the damaged one; the header declares more than these *)
+Theorem C10_short_bond_record_mol2 : forall bs0 pre0 ign lm name counts mtype ctype status la lb als h atoms,
+  m2wf_text bs0 pre0 -> Forall ignorable ign -> is_sec lm SMolecule ->
+  m2header (strip name) (strip counts) (strip ctype) = Ok h -> plain_status status -> is_sec la SAtom ->
+  mh_natoms h = Z.of_nat (List.length atoms) -> Forall2 atom_line_of als atoms ->
+  forall bls0 bonds0, is_sec lb SBond ->
+  forall nb l' post, mh_nbonds h = Some nb -> (Z.of_nat (List.length bls0) < nb)%Z ->
+  Forall2 bond_line_of bls0 bonds0 -> few_tokens 4 l' ->
+  exists e, read_mol2 true (pre0 ++ ign ++ lm :: name :: counts :: mtype :: ctype :: status ::
+                            la :: als ++ lb :: bls0 ++ l' :: post) = Err e.
+Proof. exact read_mol2_short_bond. Qed.
+Print Assumptions C10_short_bond_record_mol2.
+(* the last bond record of a text replaced by ANY line (mol2 counterpart of C10_last_line_xyz): an exception, or the same
+   blocks with exactly that record replaced by the tokens of l' *)
+Theorem C10_last_bond_line_mol2 : forall bs0 pre0 ign lm name counts mtype ctype status la lb als h atoms,
+  m2wf_text bs0 pre0 -> Forall ignorable ign -> is_sec lm SMolecule ->
+  m2header (strip name) (strip counts) (strip ctype) = Ok h -> plain_status status -> is_sec la SAtom ->
+  mh_natoms h = Z.of_nat (List.length atoms) -> Forall2 atom_line_of als atoms ->
+  forall bls0 bonds0, is_sec lb SBond -> mh_nbonds h = Some (Z.of_nat (S (List.length bonds0))) ->
+  Forall2 bond_line_of bls0 bonds0 -> forall l',
+  let text := pre0 ++ ign ++ lm :: name :: counts :: mtype :: ctype :: status :: la :: als ++ lb :: bls0 ++ [l'] in
+  (few_tokens 4 l' -> exists e, read_mol2 true text = Err e) /\
+  (~ few_tokens 4 l' -> read_mol2 true text = Ok (bs0 ++ [mk_m2block h atoms (bonds0 ++ [mk_m2bond (split (strip l'))])])).
+Proof. exact read_mol2_last_bond_line. Qed.
+Print Assumptions C10_last_bond_line_mol2.
+(* a cut at a token boundary of the last bond record: an exception, or exactly the molecules of the undamaged text
+   (mol2 counterpart of C10_truncate_tokens_xyz; `last` is the undamaged record) *)
+Theorem C10_truncate_tokens_mol2 : forall bs0 pre0 ign lm name counts mtype ctype status la lb als h atoms,
+  m2wf_text bs0 pre0 -> Forall ignorable ign -> is_sec lm SMolecule ->
+  m2header (strip name) (strip counts) (strip ctype) = Ok h -> plain_status status -> is_sec la SAtom ->
+  mh_natoms h = Z.of_nat (List.length atoms) -> Forall2 atom_line_of als atoms ->
+  forall bls0 bonds0, is_sec lb SBond -> mh_nbonds h = Some (Z.of_nat (S (List.length bonds0))) ->
+  Forall2 bond_line_of bls0 bonds0 -> forall atype btype last l' j,
+  ~ few_tokens 4 last -> split (strip l') = firstn j (split (strip last)) ->
+  let text x := pre0 ++ ign ++ lm :: name :: counts :: mtype :: ctype :: status :: la :: als ++ lb :: bls0 ++ [x] in
+  (exists e, load_mol2_lines true atype btype (text l') = Err e) \/
+  load_mol2_lines true atype btype (text l') = load_mol2_lines true atype btype (text last).
+Proof. exact load_mol2_cut_token_boundary. Qed.
+Print Assumptions C10_truncate_tokens_mol2.
+
+(* the hypotheses are satisfiable: the second molecule of ex_mol2 ++ ex_mol2 with its only bond record `1 1 2 1` cut to
+   `1 1 2` (and, with a default for the type column, that line would read as a complete bond) *)
+Example C10_short_bond_nonvacuous :
+  exists e, read_mol2 true (ex_mol2 ++ removelast ex_mol2 ++ [s2l "     1      1      2"]) = Err e.
+Proof.
+  assert (H : exists b, m2wf b ex_mol2).
+  { eexists. unfold ex_mol2. cbn [map].
+    eapply (m2wf_intro [_] _ _ _ _ _ _ _ [_; _] _ [_]).
+    - constructor; [right; eexists; vm_compute; reflexivity|constructor].
+    - do 2 eexists. repeat split; vm_compute; reflexivity.
+    - vm_compute. reflexivity.
+    - split; vm_compute; reflexivity.
+    - do 2 eexists. repeat split; vm_compute; reflexivity.
+    - instantiate (1 := [_; _]). reflexivity.
+    - constructor; [split; [reflexivity|vm_compute; lia]|constructor; [split; [reflexivity|vm_compute; lia]|constructor]].
+    - do 2 eexists. repeat split; vm_compute; reflexivity.
+    - instantiate (1 := [_]). reflexivity.
+    - constructor; [split; [reflexivity|vm_compute; lia]|constructor]. }
+  destruct H as [b Hb].
+  assert (Ht : m2wf_text [b] ex_mol2).
+  { rewrite <- (app_nil_r ex_mol2). repeat constructor. exact Hb. }
+  unfold ex_mol2 at 2. cbn [map removelast app].
+  eapply C10_short_bond_record_mol2 with (bs0 := [b]) (pre0 := ex_mol2) (ign := [_]) (als := [_; _]) (atoms := [_; _])
+    (bls0 := []) (bonds0 := []) (nb := 1%Z) (post := []).
+  all: try exact Ht.
+  - constructor; [right; eexists; vm_compute; reflexivity|constructor].
+  - do 2 eexists. repeat split; vm_compute; reflexivity.
+  - vm_compute. reflexivity.
+  - split; vm_compute; reflexivity.
+  - do 2 eexists. repeat split; vm_compute; reflexivity.
+  - reflexivity.
+  - constructor; [split; [reflexivity|vm_compute; lia]|constructor; [split; [reflexivity|vm_compute; lia]|constructor]].
+  - do 2 eexists. repeat split; vm_compute; reflexivity.
+  - reflexivity.
+  - reflexivity.
+  - constructor.
+  - vm_compute. lia.
 Qed.
